@@ -178,6 +178,7 @@ package refopts
 //@   ensures nReg == 15
 
 //@ property C06: (*RefGroupBuilder).Finish (*RefGroupBuilder).AddRefopts
+//@ property C07: (*RefGroupBuilder).Finish (*refGrouper).fillInTree
 //@ property C07: parentName
 //@ property C15: splitKey
 
